@@ -398,6 +398,22 @@ func runC04(c *runCtx) {
 			res.fail("comments-differ", "comments are not captured once each with their exact text", wit, map[string]any{"got": gotC, "want": comments})
 		}
 	}
+	// quoted names whose content starts or ends with their own quote character (a doubled quote is one quote), in both
+	// quoting styles: one identifier token with that content, never a string and never rejected
+	for _, q := range []string{"\"", "`"} {
+		for _, e := range []struct{ text, val string }{{"QQQQ", "Q"}, {"QaQQQ", "aQ"}, {"QQQaQ", "Qa"}, {"QQQaQQQ", "QaQ"}, {"QaQQbQ", "aQb"}, {"QQQQQQ", "QQ"}, {"QQQa bQQQ", "Qa bQ"}, {"QQQQQaQ", "QQa"}} {
+			lit, val := strings.ReplaceAll(e.text, "Q", q), strings.ReplaceAll(e.val, "Q", q)
+			text := "x = " + lit + " y"
+			_, toks, _, err := corr([]byte(text))
+			wit := map[string]any{"input": text, "quote": q}
+			style := map[string]string{"\"": "double-quoted", "`": "backtick"}[q]
+			if err != nil {
+				res.fail("reference-rejected:"+style+"-name-quote-at-edge", "a quoted name whose content begins or ends with a (doubled) quote is rejected", wit, map[string]any{"error": strings.SplitN(err.Error(), "\n", 2)[0]})
+			} else if len(toks) != 5 || toks[2].Token.Value != val || strings.Contains(strings.ToUpper(toks[2].Token.Type.String()), "TRIPLE") {
+				res.fail("tokens-differ:"+style+"-name-quote-at-edge", "a quoted name whose content begins or ends with a (doubled) quote is not read as one name with that content", wit, map[string]any{"got": kindsValues(toks), "want": val})
+			}
+		}
+	}
 	// strings whose content starts or ends with a quote (standard SQL: a doubled quote is one quote)
 	for _, e := range []struct{ text, val string }{{"''''", "'"}, {"'a'''", "a'"}, {"'''a'", "'a"}, {"'''a'''", "'a'"}, {"''", ""}, {"''''''", "''"}, {"'a''b'", "a'b"}} {
 		text := "x = " + e.text + " y"
